@@ -57,6 +57,15 @@ type DeploySpec struct {
 	Res      ResSpec           `json:"res"`
 	Files    int               `json:"files,omitempty"` // number of small files to copy in
 	User     string            `json:"user,omitempty"`
+	All      bool              `json:"all,omitempty"`     // NodeFilter.All
+	AnyPod   bool              `json:"any_pod,omitempty"` // NodeFilter.Podname = "" (request still names Pod)
+}
+
+func (d DeploySpec) filterPod() string {
+	if d.AnyPod {
+		return ""
+	}
+	return d.Pod
 }
 
 // Options renders the DeployOptions.
@@ -66,7 +75,7 @@ func (d DeploySpec) Options() *types.DeployOptions {
 		Name:           d.App,
 		Entrypoint:     &types.Entrypoint{Name: d.Entry, Commands: []string{"sleep", "1"}},
 		Podname:        d.Pod,
-		NodeFilter:     &types.NodeFilter{Podname: d.Pod, Includes: append([]string(nil), d.Includes...), Excludes: append([]string(nil), d.Excludes...), Labels: d.NLabels},
+		NodeFilter:     &types.NodeFilter{All: d.All, Podname: d.filterPod(), Includes: append([]string(nil), d.Includes...), Excludes: append([]string(nil), d.Excludes...), Labels: d.NLabels},
 		Image:          "img:1",
 		Count:          d.Count,
 		DeployStrategy: d.Strategy,
